@@ -30,6 +30,7 @@ arrive at every lattice dimension together with the sub-layer's public
 `monotonicities`, and replaces the result by a per-lattice identifier, so the
 output dict of the RTL layer shows where each lattice's output was routed.
 """
+import copy
 import itertools
 
 import numpy as np
@@ -41,8 +42,8 @@ from vlib.harness import Outcome
 ID = "C17"
 TITLE = ("Ensemble structures use every feature, fill each lattice, respect "
          "monotone slots")
-RULE = ("Hypothesis draws an entry point and a layout. RTL (about half of the "
-        "cases): 'unconstrained' and/or 'increasing' inputs, each a single "
+RULE = ("Hypothesis draws an entry point and a layout. RTL (about a third of "
+        "the cases): 'unconstrained' and/or 'increasing' inputs, each a single "
         "(batch, D) tensor or a list of grouped multi-unit tensors, either "
         "dict key order, or a plain tensor; 1-12 input columns (thorough 40), "
         "lattice_rank 1-4 (thorough 5), num_lattices from the smallest count "
@@ -51,15 +52,17 @@ RULE = ("Hypothesis draws an entry point and a layout. RTL (about half of the "
         "all_vertices or kronecker_factored, group avoidance on/off, any seed. "
         "Random ensemble: 1-12 feature names (thorough 30) given by feature "
         "configs or by feature_names, rank <= number of features, enough "
-        "slots. Crystals cover: 3-12 features, 2 <= rank < features. Crystals: "
-        "3-6 features (thorough 8), a real prefitting model whose lattice "
-        "kernels are assigned generated values (independent random kinds, "
-        "shared, additive = zero torsion, and at a low rate degenerate "
-        "constant / one-feature kernels = known finding F-C17-1). "
+        "slots. Crystals cover: 3-12 features (thorough 25), 2 <= rank < "
+        "features. Crystals (about 5%): 3-6 features (thorough 8), a real "
+        "prefitting model whose lattice kernels are assigned generated values "
+        "(independent random kinds and scales, shared, additive = zero "
+        "torsion, few-valued, and at a low rate degenerate constant / "
+        "one-feature kernels plus four explicit examples = known finding "
+        "F-C17-1 and its two sibling symptoms). "
         "Non-trivial: at least two lattices and two features (so the "
         "arrangement is not forced); distinct by SHA-1 of the case.")
 NT_FLOOR = 0.6
-BUDGET = {"quick": 400, "thorough": 6000}
+BUDGET = {"quick": 350, "thorough": 6000}
 ASSUMPTIONS = [
     "enough slots: num_lattices * lattice_rank >= number of inputs (RTL and "
     "the premade ensembles raise / cannot place the features otherwise)",
@@ -92,15 +95,53 @@ LEVEL_NOTE = ("Trusted: TensorFlow/NumPy, the harness, the sub-lattice layers' "
 
 ENTRIES = (["rtl"] * 12 + ["random"] * 14 + ["cover"] * 10 + ["crystals"] * 2)
 KMODES = (["random"] * 10 + ["shared"] * 2 + ["additive"] * 3 + ["ties"] * 2 +
-          ["degenerate"])
+          ["degenerate", "one-feature"])
 RANDOM_KINDS = ["normal", "normal", "uniform", "ints", "sorted", "antisorted",
                 "spike"]
+
+# Explicit Crystals examples (drawn at a low rate so that every quick run
+# replays them): the three symptoms of the fragile use allocation in
+# premade_lib._get_final_crystal_lattices on degenerate importance scores.
+# Prefitting cover for 3 features / rank 2 / seed 0: [f1 f2] [f0 f2] [f0 f1];
+# for 4 features / rank 3 / seed 0: [f0 f2 f3] [f0 f1 f2] [f1 f3].
+CATALOG = [
+    # F-C17-1: a constant prefitting kernel (0/0 in the min-max normalisation).
+    {"entry": "crystals", "names": ["f0", "f1", "f2"], "via": "configs",
+     "rank": 2, "num_lattices": 2, "seed": 0, "aux": 0, "kmode": "explicit",
+     "kernels": [[1.0, 1.0, 1.0, 1.0], [0.0, 1.0, 2.0, 4.0],
+                 [0.0, 1.0, 2.0, 4.0]]},
+    # F-C17-1: every lattice depends on one feature only; the remaining
+    # importance scores are all zero (0/0 in the use allocation).
+    {"entry": "crystals", "names": ["f0", "f1", "f2"], "via": "configs",
+     "rank": 2, "num_lattices": 2, "seed": 0, "aux": 0, "kmode": "explicit",
+     "kernels": [[0.0, 0.0, 1.0, 1.0], [0.0, 0.0, 1.0, 1.0],
+                 [0.0, 0.0, 1.0, 1.0]]},
+    # AssertionError: the per-feature cap leaves uses that only zero-score
+    # features could take.
+    {"entry": "crystals", "names": ["f0", "f1", "f2", "f3"], "via": "configs",
+     "rank": 3, "num_lattices": 3, "seed": 0, "aux": 0, "kmode": "explicit",
+     "kernels": [[0.0, 0.0, 0.0, 0.0, 0.0, 1.0, 0.0, 1.0],
+                 [0.0, 0.0, 0.0, 0.0, 1.0, 1.0, 1.0, 1.0],
+                 [0.0, 1.0, 0.0, 1.0001]]},
+    # OverflowError: the float32 running sum of the scores cancels to 0 while
+    # a tiny positive score is left (x/0 = inf).
+    {"entry": "crystals", "names": ["f0", "f1", "f2", "f3"], "via": "configs",
+     "rank": 3, "num_lattices": 5, "seed": 0, "aux": 0, "kmode": "explicit",
+     "kernels": [[0.0, 0.0, 0.0, 0.0, 1.0, 1.0, 1.0, 1.0],
+                 [0.0, 0.0, 1.0, 1.0, 0.0, 0.0, 1.0, 1.0],
+                 [0.0, 0.0, 1.0, 1.0001]]},
+]
 
 
 # --------------------------------------------------------------------------
 # generators
 def _ceil_div(a, b):
   return -(-a // b)
+
+
+def _uni(lo, hi):
+  """Uniform small integer (st.integers over-weights the lower end)."""
+  return st.sampled_from(list(range(lo, hi + 1)))
 
 
 @st.composite
@@ -112,20 +153,20 @@ def _num_lattices(draw, n, rank, big):
   if mode == "tight":
     return lo
   if mode == "few-more":
-    return lo + draw(st.integers(0, 3))
+    return lo + draw(_uni(0, 3))
   if mode == "repeats":
-    return max(lo, _ceil_div(n * draw(st.integers(2, 3)), rank) +
-               draw(st.integers(-1, 1)))
-  return lo + draw(st.integers(0, 40 if big else 12))
+    return max(lo, _ceil_div(n * draw(_uni(2, 3)), rank) +
+               draw(_uni(-1, 1)))
+  return lo + draw(_uni(0, 40 if big else 12))
 
 
 @st.composite
 def _input_spec(draw, max_cols):
   """One RTL dict value: a (batch, D) tensor or a list of grouped tensors."""
   if draw(st.booleans()):
-    return {"form": "tensor", "units": [1] * draw(st.integers(1, max_cols))}
+    return {"form": "tensor", "units": [1] * draw(_uni(1, max_cols))}
   units, left = [], max_cols
-  for _ in range(draw(st.integers(1, 5))):
+  for _ in range(draw(_uni(1, 5))):
     if left <= 0:
       break
     u = draw(st.sampled_from([1, 1, 2, 3, 4, 6]))
@@ -142,7 +183,7 @@ def _rtl_case(draw, tier):
   mix = draw(st.sampled_from(["both", "both", "both", "unc", "inc", "plain"]))
   unc = inc = None
   if mix == "both":
-    a = draw(st.integers(1, max_cols - 1))
+    a = draw(_uni(1, max_cols - 1))
     unc = draw(_input_spec(a))
     inc = draw(_input_spec(max(1, max_cols - sum(unc["units"]))))
   elif mix == "unc":
@@ -150,7 +191,7 @@ def _rtl_case(draw, tier):
   elif mix == "inc":
     inc = draw(_input_spec(max_cols))
   else:
-    unc = {"form": "tensor", "units": [1] * draw(st.integers(1, max_cols))}
+    unc = {"form": "tensor", "units": [1] * draw(_uni(1, max_cols))}
   n = sum((unc or {"units": []})["units"]) + sum(
       (inc or {"units": []})["units"])
   rank = draw(st.sampled_from([1, 2, 2, 3, 3, 4] + ([4, 5] if big else [])))
@@ -168,8 +209,8 @@ def _rtl_case(draw, tier):
       "param": param,
       "interp": "hypercube" if param != "all_vertices" else draw(
           st.sampled_from(["hypercube", "simplex"])),
-      "seed": draw(st.one_of(st.integers(0, 50), S.seeds)),
-      "batch": draw(st.integers(1, 2)),
+      "seed": draw(st.one_of(_uni(0, 50), S.seeds)),
+      "batch": draw(_uni(1, 2)),
       "aux": draw(S.seeds),
   }
 
@@ -194,16 +235,18 @@ def _names(draw, n, keras_safe):
 @st.composite
 def _ensemble_case(draw, tier, entry):
   big = tier == "thorough"
+  if entry == "crystals" and draw(_uni(0, 2)) == 0:
+    return copy.deepcopy(draw(st.sampled_from(CATALOG)))
   if entry == "random":
-    n = draw(st.integers(1, 30 if big else 12))
+    n = draw(_uni(1, 30 if big else 12))
     rank = min(n, draw(st.sampled_from(
         [1, 2, 2, 3, 3, 4, 5] + ([6] if big else []))))
   elif entry == "cover":
-    n = draw(st.integers(3, 25 if big else 12))
+    n = draw(_uni(3, 25 if big else 12))
     rank = min(n - 1, draw(st.sampled_from(
         [2, 2, 3, 3, 4, 5, 6] + ([7, 8] if big else []))))
   else:
-    n = draw(st.integers(3, 8 if big else 6))
+    n = draw(_uni(3, 8 if big else 6))
     rank = min(n - 1, draw(st.sampled_from(
         [2, 2, 3, 3, 4] + ([5] if big else []))))
   case = {
@@ -213,7 +256,7 @@ def _ensemble_case(draw, tier, entry):
           st.sampled_from(["configs", "names"])),
       "rank": rank,
       "num_lattices": draw(_num_lattices(n, rank, big and entry != "crystals")),
-      "seed": draw(st.one_of(st.integers(0, 50), S.seeds)),
+      "seed": draw(st.one_of(_uni(0, 50), S.seeds)),
       "aux": draw(S.seeds),
   }
   if entry == "crystals":
@@ -639,7 +682,15 @@ def _run_cover(case, out):
 def _prefit_kernel(case, i, dims):
   """float32 kernel (2**dims, 1) of prefitting lattice i."""
   m = 2 ** dims
-  kd, kmode = case["kernel"], case["kmode"]
+  kmode = case["kmode"]
+  if kmode == "explicit":
+    ks = case["kernels"]
+    if i < len(ks) and len(ks[i]) == m:
+      return np.asarray(ks[i], np.float32).reshape(m, 1)
+    # the cover differs from the one the example was written for
+    return np.indices([2] * dims).reshape(dims, -1)[0].astype(
+        np.float32).reshape(m, 1)
+  kd = case["kernel"]
   seed = (kd["seed"] + 7919 * i) % (2**31)
   rs = np.random.RandomState(seed)
   grid = np.indices([2] * dims).reshape(dims, -1).astype(np.float64)
@@ -652,6 +703,18 @@ def _prefit_kernel(case, i, dims):
   if kmode == "additive":
     w = rs.uniform(0.1, 1.0, size=dims) * rs.choice([-1.0, 1.0], size=dims)
     return ((w @ grid) * kd["scale"]).astype(np.float32).reshape(m, 1)
+  if kmode == "one-feature":
+    # every lattice depends on one feature (exactly, or up to a tiny
+    # interaction): most features get a zero / negligible importance score.
+    pick = rs.randint(4)
+    k = grid[rs.randint(dims)].copy()
+    if pick == 1:
+      k = k + grid[rs.randint(dims)]
+    elif pick == 2:
+      k = k * grid[rs.randint(dims)]
+    elif pick == 3:
+      k = k + 1e-4 * grid[rs.randint(dims)] * grid[rs.randint(dims)]
+    return k.astype(np.float32).reshape(m, 1)
   # degenerate: the region of known finding F-C17-1 (kept at a low rate)
   pick = rs.randint(5)
   if pick == 0:
